@@ -993,6 +993,50 @@ func generateOverlay(pkg *packages.Package, contracts []*FuncContract, regions [
 	}
 	var sb strings.Builder
 	fmt.Fprintf(&sb, "//go:build verif\n\n// Code generated by gocv from the //@ contracts of this package. DO NOT EDIT.\n\npackage %s\n\n", pkg.Name)
+	// packages named directly in contract expressions (io.EOF, strings.Contains ...) : imported under the name the
+	// package's own files use
+	bodyText := body.String()
+	for _, f := range pkg.Syntax {
+		for _, im := range f.Imports {
+			path := strings.Trim(im.Path.Value, "\"")
+			name := ""
+			if im.Name != nil {
+				name = im.Name.Name
+			} else if ip := pkg.Imports[path]; ip != nil {
+				name = ip.Name
+			}
+			if name == "" || name == "_" || name == "." {
+				continue
+			}
+			if _, have := g.imports[path]; have {
+				continue
+			}
+			used := false
+			for i := 0; ; {
+				j := strings.Index(bodyText[i:], name+".")
+				if j < 0 {
+					break
+				}
+				j += i
+				if j == 0 || !(bodyText[j-1] == '_' || bodyText[j-1] == '.' || bodyText[j-1] >= 'a' && bodyText[j-1] <= 'z' || bodyText[j-1] >= 'A' && bodyText[j-1] <= 'Z' || bodyText[j-1] >= '0' && bodyText[j-1] <= '9') {
+					used = true
+					break
+				}
+				i = j + 1
+			}
+			if used {
+				clash := false
+				for _, n := range g.imports {
+					if n == name {
+						clash = true
+					}
+				}
+				if !clash {
+					g.imports[path] = name
+				}
+			}
+		}
+	}
 	var paths []string
 	for p := range g.imports {
 		paths = append(paths, p)
